@@ -167,3 +167,56 @@ Definition response_handler_reading : list (string * string) := [
   ("1:else", "");
   ("2:call", "self.send_pairing_confirm_command()")
 ].
+
+(* The session table of smp.Manager, as it stood when [mgr_step] (Model/PairingMsg.v) was
+   transcribed: Session.on_disconnection removes its listeners and ends the session unconditionally;
+   Session.on_pairing_failure ends it; Manager.on_session_end deletes the entry of the connection
+   handle; Manager.pair and Manager.on_smp_pdu register a new session under the handle (the latter
+   only for a Pairing Request and only when none is registered). *)
+
+Definition session_on_disconnection_reading : list (string * string) := [
+  ("0:call", "self.connection.remove_listener(self.connection.EVENT_DISCONNECTION, self.on_disconnection)");
+  ("0:call", "self.connection.remove_listener(self.connection.EVENT_CONNECTION_ENCRYPTION_CHANGE, self.on_connection_encryption_change)");
+  ("0:call", "self.connection.remove_listener(self.connection.EVENT_CONNECTION_ENCRYPTION_KEY_REFRESH, self.on_connection_encryption_key_refresh)");
+  ("0:call", "self.manager.on_session_end(self)")
+].
+
+Definition session_on_pairing_failure_reading : list (string * string) := [
+  ("0:if", "self.completed");
+  ("1:return", "");
+  ("0:set self.completed", "True");
+  ("0:if", "self.pairing_result is not None and (not self.pairing_result.done())");
+  ("1:call", "self.pairing_result.set_exception(error)");
+  ("0:call", "self.manager.on_pairing_failure(self, reason)");
+  ("0:call", "self.manager.on_session_end(self)")
+].
+
+Definition manager_on_session_end_reading : list (string * string) := [
+  ("0:if", "session.connection.handle in self.sessions");
+  ("1:del", "self.sessions[session.connection.handle]")
+].
+
+Definition manager_pair_reading : list (string * string) := [
+  ("0:if", "connection.role != Role.CENTRAL");
+  ("0:call", "self.session_proxy(self, connection, pairing_config)");
+  ("0:set session", "self.session_proxy(self, connection, pairing_config, is_initiator=True)");
+  ("0:set self.sessions[connection.handle]", "session");
+  ("0:call", "session.pair()");
+  ("0:return", "await session.pair()")
+].
+
+Definition manager_on_smp_pdu_reading : list (string * string) := [
+  ("0:if", "command.code == CommandCode.SECURITY_REQUEST");
+  ("1:call", "self.on_smp_security_request_command(connection, cast(SMP_Security_Request_Command, command))");
+  ("1:return", "");
+  ("0:if", "not (session := self.sessions.get(connection.handle))");
+  ("1:if", "command.code != CommandCode.PAIRING_REQUEST");
+  ("2:if", "command.code != CommandCode.PAIRING_FAILED");
+  ("3:call", "self.send_command(connection, SMP_Pairing_Failed_Command(reason=ErrorCode.UNSPECIFIED_REASON))");
+  ("2:return", "");
+  ("1:if", "connection.role == Role.CENTRAL");
+  ("1:call", "self.session_proxy(self, connection, pairing_config)");
+  ("1:set session", "self.session_proxy(self, connection, pairing_config, is_initiator=False)");
+  ("1:set self.sessions[connection.handle]", "session");
+  ("0:call", "session.on_smp_command(command)")
+].
